@@ -132,8 +132,14 @@ func ruleChunkAccounting(c *Check, p *Program, rule string) {
 			// the object invariant 0 <= cursor <= len(buffer) (established by init: cursor 0; every store in this
 			// function is checked against it below) holds whenever the fields are read afresh
 			freshField: func(g *goProg, a *AbsState, fk string) {
-				ki, kd := key(g, sp.idx), key(g, sp.data)
-				if fk != ki && fk != kd {
+				// the cell may be read inside an inlined helper of the object: it is the caller's cell all the same
+				var ki, kd string
+				switch {
+				case strings.HasSuffix(fk, ":"+fIdx):
+					ki, kd = fk, strings.TrimSuffix(fk, sp.idx)+sp.data
+				case strings.HasSuffix(fk, ":"+fData):
+					ki, kd = strings.TrimSuffix(fk, sp.data)+sp.idx, fk
+				default:
 					return
 				}
 				i, hasI := a.vals[ki]
